@@ -3,7 +3,7 @@ their rendering as Lean driver tokens, and canonical results/exceptions."""
 import errno
 import socket as _real
 
-from common import hx
+from common import hx, unhx
 
 DEFAULT = type("DEFAULT", (), {"__repr__": lambda s: "DEFAULT"})()
 CASDEFAULT = type("CASDEFAULT", (), {"__repr__": lambda s: "CASDEFAULT"})()
@@ -191,27 +191,27 @@ def _parse_key_tok(t):
     raise ValueError(t)
 
 
-def convert_raw_stats(raw):
-    """the loop of `Client.stats` after `_fetch_cmd`: best-effort conversion by `STAT_TYPES.get(key, int)`"""
-    from pymemcache.client.base import STAT_TYPES
-    out = {}
-    for key, value in raw.items():
-        converter = STAT_TYPES.get(key, int)
+def model_sval_tok(t):
+    """a value token printed by the Lean driver for a converted stats value -> the form of `stat_val_tok`.
+    `int:` / `True` / `False` / `b:` are already in that form; `f:<arg>:<raw>` is the one conversion the model leaves to
+    CPython: `float(arg)` if it accepts `arg`, else the raw value"""
+    if t.startswith("f:"):
+        _, a, r = t.split(":")
         try:
-            out[key] = converter(value)
-        except Exception:
-            out[key] = value
-    return out
+            return "float:" + repr(float(unhx(a)))
+        except ValueError:
+            return "b:" + hx(unhx(r))
+    return t
 
 
 def canon_model_stats(tok):
-    """`stats:{<key>=<hex>;…}` as printed by the Lean driver (raw values) -> the form of `canon_stats_dict`"""
+    """`stats:{<key>=<value token>;…}` as printed by the Lean driver (values converted by `Stats.statsConvert`) -> the form of `canon_stats_dict`"""
     body = tok[len("stats:{"):-1]
-    raw = {}
+    items = []
     for item in (body.split(";") if body else []):
         k, v = item.split("=", 1)
-        raw[_parse_key_tok(k)] = bytes.fromhex(v)
-    return canon_stats_dict(convert_raw_stats(raw))
+        items.append(f"{k}={model_sval_tok(v)}")
+    return "stats:{" + ";".join(sorted(items)) + "}"
 
 
 def canon_model_line(line):
